@@ -46,10 +46,10 @@ fn grid(tier: Tier) -> Vec<(usize, u64, u64, usize)> {
 
 fn plan(tier: Tier) -> Vec<Workload> {
     vec![
-        Workload::new("histories", tier.pick(20_000, 600_000)),
-        Workload::new("histories_ship", tier.pick(5_000, 150_000)).ship(),
-        Workload::new("catalogue", tier.pick(6_000, 60_000)),
-        Workload::new("catalogue_ship", tier.pick(2_000, 20_000)).ship(),
+        Workload::new("histories", tier.pick(60_000, 2_000_000)),
+        Workload::new("histories_ship", tier.pick(15_000, 500_000)).ship(),
+        Workload::new("catalogue", tier.pick(20_000, 300_000)),
+        Workload::new("catalogue_ship", tier.pick(6_000, 100_000)).ship(),
         Workload::new("depth", grid(tier).len() as u64),
         Workload::new("depth_ship", grid(tier).len() as u64).ship(),
     ]
